@@ -9,17 +9,15 @@ what it receives or has parked, the ACK of what it emits).  All additions are `B
 additions, i.e. modulo 2^32: the shifted connection may wrap where the original does not and
 vice versa.
 
-Three fields of the real TCB hold ABSOLUTE numbers at times, and the map says so explicitly
+Two kinds of fields of the real TCB hold ABSOLUTE numbers at times, and the map says so explicitly
 (these are the places where `tcb.rs` is not shift-invariant by construction, see notes/C12.md):
 
 * a header's ACK field is meaningful only when the ACK bit is set; otherwise the builder leaves
   the constant 0 in it (`Hdr.shift` moves it only under the ACK bit);
-* `RCV.NXT`, `IRS`, `SND.WL1` are the constant 0 until the peer's SYN arrives, i.e. in SYN-SENT
-  (`Tcb.shift` leaves them alone in that state);
-* `SND.WL2` is copied from the ACK field of the peer's SYN.  In SYN-SENT it is 0; in
-  SYN-RECEIVED it is the ACK field of a SYN that carried no ACK bit, i.e. whatever the peer left
-  there (`Tcb.shift` leaves it alone in these two states; the first acceptable ACK overwrites it
-  on the way to ESTABLISHED).
+* `RCV.NXT`, `IRS`, `SND.WL1`, `SND.WL2` are the constant 0 until the peer's SYN arrives, i.e. in
+  SYN-SENT (`Tcb.shift` leaves them alone in that state).  Since the repair of F-C12-2 the SYN
+  sets `SND.WL2` to its ACK field only under the ACK bit and to `ISS` otherwise, so from
+  SYN-RECEIVED on `SND.WL2` lives in the local space in every state.
 
 No imports outside the model: the definitions are executable (used by `decide` witnesses).
 -/
@@ -43,7 +41,7 @@ def Snd.shift (ka kb : Seq) (st : State) (x : Snd) : Snd :=
                   | .SynSent => x.wl1
                   | _ => x.wl1 + kb,
            wl2 := match st with
-                  | .SynSent | .SynReceived => x.wl2
+                  | .SynSent => x.wl2
                   | _ => x.wl2 + ka }
 
 /-- `RCV.*`: unset (absolute 0) in SYN-SENT -/
